@@ -20,6 +20,8 @@ def run(chk):
         'play out of turn, or of a card the named seat is known not to hold, ends in raise with NO write on the path; an accepted '
         'play removes exactly that card once from exactly the named seat\'s hand (when that hand is known), adds it once to the '
         'played cards and appends it once to the trick. Who-may-write: hands / played cards are mutated nowhere else in the package.')
+    from .playfold import acceptance_rule
+    acceptance_rule(chk, 'C05.R5', 'C05.R5')
     card = Tok('card')
     trump = f.member('Suit', 'S')
     n_acc = 0
